@@ -294,6 +294,8 @@ func (s *Server) blobUploadPost(repoStr string) http.HandlerFunc {
 			body := &bodyReader{r: r.Body}
 			_, err = io.Copy(bc, body)
 			if err != nil {
+				// the client was not given the session, it cannot be resumed
+				_ = bc.Cancel()
 				if body.err != nil {
 					// the request body could not be read
 					w.WriteHeader(http.StatusBadRequest)
